@@ -1,7 +1,7 @@
 (* C12 — events of every terminated run form a complete, well-nested span tree.
    Translation validation: every event stream the implementation produces for a generated execution is run
    through the checker wf_b of Events.v; the theorems below say what acceptance means. *)
-From HG Require Import Base Engine Exec Events EventsProofs EventsModel Nested EventsTree EventsTreeProofs.
+From HG Require Import Base Engine Exec Events EventsProofs EventsModel Nested EventsTree EventsTreeProofs EventsSched EventsSchedProofs EventsTreeSched.
 
 (* every span is opened at most once and closed exactly as often as it is opened: every NodeStart
    has exactly one NodeEnd/NodeError, every RunStart exactly one RunEnd *)
@@ -98,3 +98,31 @@ Theorem C12_model_nested_run : forall d r fuel ng pv,
   wf_b (run_failed (tree_ng d r fuel ng pv)) (lin_root (tree_ng d r fuel ng pv)) = true.
 Proof. exact tree_ng_wf. Qed.
 Print Assumptions C12_model_nested_run.
+
+(* EVERY SCHEDULE.  The spans of a run as a table (id, parent, run or node span, depth).  A concurrent runner may at any moment
+   start a span whose parent is running (the root run first), end a running span all of whose children are done, emit the
+   RouteDecision of a running gate under its running run or a CacheHit of a running node - in any order across spans (no
+   superstep barrier assumed: the actual runners' schedules are among these).  The event sequence of every complete execution
+   (schedule) of every well-formed table is accepted by the checker, with the root run's status. *)
+Theorem C12_any_schedule : forall tbl root, wf_tbl tbl root ->
+  forall evs, schedule tbl evs -> wf_b (root_failed root) evs = true.
+Proof. exact sched_accepted. Qed.
+Print Assumptions C12_any_schedule.
+
+(* non-vacuity: an interleaved schedule (three sibling spans open at once, a nested failed run inside a GraphNode's span,
+   a RouteDecision arriving while other spans are open) of a concrete well-formed table *)
+Example C12_any_schedule_nonvacuous : wf_tbl ex_tbl ex_r0 /\ schedule ex_tbl ex_evs /\ wf_b false ex_evs = true.
+Proof. exact (conj ex_tbl_wf (conj ex_schedule ex_schedule_accepted)). Qed.
+
+(* ... in particular of the spans of EVERY run of the nested engine model (run_table: the span table of tree_ng, ids as in
+   the synchronous stream): whatever order an asynchronous runner starts and ends them in, the stream is a well-formed span tree *)
+Theorem C12_model_table_wf : forall failed is_map kids, forallb (shape_ok true) kids = true ->
+  wf_tbl (run_table (ST (LRun failed is_map) kids)) (run_root (ST (LRun failed is_map) kids)).
+Proof. exact run_table_wf. Qed.
+Print Assumptions C12_model_table_wf.
+
+Theorem C12_model_any_schedule : forall d r fuel ng pv evs,
+  schedule (run_table (tree_ng d r fuel ng pv)) evs ->
+  wf_b (run_failed (tree_ng d r fuel ng pv)) evs = true.
+Proof. exact model_any_schedule. Qed.
+Print Assumptions C12_model_any_schedule.
